@@ -24,6 +24,13 @@ func build(tier string) []*explore.Scenario {
 			scs = append(scs, hlib.WriteScenario(p, hlib.CheckOrder))
 		}
 	}
+	// the library's own buffering wrappers between the channel and the (mock) connection: a write
+	// buffer smaller than two payloads (flushes in the middle of a payload) and the read+write wrapper
+	for _, cfg := range []hlib.ChanCfg{{0, false}, {2, true}} {
+		for _, wrap := range []hlib.Wrap{{0, 8}, {16, 16}} {
+			scs = append(scs, hlib.WriteScenario(hlib.WParams{Cfg: cfg, Wrap: wrap, Writers: hlib.Mixes(2, 2)[1], Bound: bound, Cache: true}, hlib.CheckOrder))
+		}
+	}
 	// three writers, one call each
 	b3 := 2
 	if tier == "thorough" {
